@@ -29,7 +29,10 @@ using namespace soplex;
 #define NV 3            // number of vectors in the pre-state
 #endif
 #ifndef SYMSZ
-#define SYMSZ 0         // 1 (thorough): sizes of added vectors / requested capacities / kept perm entries symbolic; 0: concrete
+#define SYMSZ 0         // 1 (thorough): sizes of added vectors / requested capacities (create, add1) and one set of kept perm entries symbolic; 0: concrete
+#endif
+#ifndef SYMIDX
+#define SYMIDX 1        // 0 (thorough): nonzero indices concrete (distinct), only the values symbolic - keeps the number of nondet draws per entry below the driver's trace length
 #endif
 #define NVX (NV + 3)    // bound on the number of vectors ever in the set
 #define CAP (NV + 4)    // vector capacity of the set (never exceeded)
@@ -45,13 +48,14 @@ static const int SZ[8] = {2, 1, 3, 2, 1, 2, 1, 1};
 extern "C" ptrdiff_t m_no_remax(ClassArray<NZT>* self, int newMax, int newSize) { vp_assert(0, 90); return 0; }
 extern "C" ptrdiff_t m_no_setremax(ClassSet<SS::DLPSV>* self, int newmax) { vp_assert(0, 91); return 0; }
 
+static int sym_idx(int dflt) { if(SYMIDX) return vp_int_in(0, 7); return dflt; }
 // harness-owned sparse vector with sz symbolic nonzeros (values != 0: SVector assignment drops stored zeros)
 static void fill(SV& v, NZT* m, int sz)
 {
    v.setMem(sz, m);
    for(int p = 0; p < NZ; ++p) if(p < sz)
    {
-      m[p].idx = vp_int_in(0, 7);
+      m[p].idx = sym_idx(p);
       double x = vp_small(-4, 4);
       vp_assume(x != 0.0);
       m[p].val = x;
@@ -91,7 +95,7 @@ template<int PRE> static void build(SS& s)
       vp_assert(v.size() == ((PRE != 0 && i == (PRE == 1 ? 1 : 0)) ? SZ[NV] : SZ[i]), 80);
       for(int q = 0; q < v.size(); ++q)
       {
-         v.index(q) = vp_int_in(0, 7);
+         v.index(q) = sym_idx((q + 3 * i) % 8);
          double x = vp_small(-4, 4);
          vp_assume(x != 0.0);
          v.value(q) = x;
@@ -273,7 +277,7 @@ template<int PRE, int KEYED> static void t_add_many(int n, int sz0, int sz1)
    vp_assert(inv(s, MEM), 7);
 }
 #if SYMSZ
-#define CASE(P) { int n = vp_int_in(0, NADD); int a = vp_int_in(0, 2); int b = vp_int_in(0, 2); t_add_many<P, 0>(n, a, b); }
+#define CASE(P) t_add_many<P, 0>(2, 2, 1); t_add_many<P, 0>(P == 1 ? 0 : 1, 0, 2)
 #else
 #define CASE(P) t_add_many<P, 0>(2, 2, 1); t_add_many<P, 0>(P == 1 ? 0 : 1, 0, 2)
 #endif
@@ -283,7 +287,8 @@ ENTRIES(add_many, CASE)
 extern "C" void h_svset_add_many_keys()
 {
 #if SYMSZ
-   { int n = vp_int_in(1, NADD); int a = vp_int_in(0, 2); int b = vp_int_in(0, 2); t_add_many<1, 1>(n, a, b); }
+   t_add_many<1, 1>(2, 2, 1);
+   t_add_many<1, 1>(1, 1, 2);
 #else
    t_add_many<1, 1>(2, 2, 1);
    t_add_many<1, 1>(1, 1, 2);
@@ -398,8 +403,8 @@ template<int PRE> static void t_remove_perm(unsigned mask)
    for(int i = 0; i < NV; ++i)
    {
       del[i] = (mask >> i) & 1;
-      // input value of a kept entry: any value >= 0 (symbolic only in the thorough variant: the real code branches on it)
-      int keep = SYMSZ ? vp_int_in(0, 1000) : 5 * i + 3;
+      // input value of a kept entry: any value >= 0 (symbolic only for one mask of the thorough variant: the real code branches on it)
+      int keep = (SYMSZ && mask == 5) ? vp_int_in(0, 1000) : 5 * i + 3;
       perm[i] = del[i] ? -1 : keep;
       if(del[i]) ++ndel;
    }
